@@ -176,6 +176,13 @@ func runC17(r *rep.Report, thorough bool) error {
 		{Name: "duplicates", Files: []string{"p/a.go", "p/a.go"}},
 		{Name: "same-dir-two-files", Files: []string{"p/a.go", "p/b.go"}},
 		{Name: "three-levels", Files: []string{"a/b/c/x.go", "a/b/y.go", "a/z.go"}},
+		// a sibling named like a directory plus a character that sorts before the separator, next to
+		// that directory and one of its sub-directories (every order of the three)
+		{Name: "dashed-sibling-of-nested-1", Files: []string{"server/a.go", "server/api/b.go", "server-utils/c.go"}},
+		{Name: "dashed-sibling-of-nested-2", Files: []string{"server-utils/c.go", "server/api/b.go", "server/a.go"}},
+		{Name: "dashed-sibling-of-nested-3", Files: []string{"server/api/b.go", "server-utils/c.go", "server/a.go"}},
+		{Name: "dotted-sibling-of-nested", Files: []string{"lib/a.go", "lib.v2/c.go", "lib/x/b.go"}},
+		{Name: "four-dirs-middle-outside", Files: []string{"q/a.go", "q/r/b.go", "q+/c.go", "q/r/s/d.go"}},
 		{Name: "relative-spelling", Files: []string{"rel1/a.go", "rel2/b.go"}, Rel: true},
 		{Name: "spelling-dotdot", Files: []string{"m1/a.go", "m2/b.go"}, Spell: "dotdot"},
 		{Name: "spelling-dot", Files: []string{"m1/a.go", "m1/sub/b.go"}, Spell: "dot"},
@@ -185,11 +192,11 @@ func runC17(r *rep.Report, thorough bool) error {
 		{Name: "non-go-file", Files: []string{"p/a.go", "p/notes.txt"}, Err: "txt"},
 		{Name: "type-error", Files: []string{"bad/a.go"}, Err: "typeerror"},
 	}
-	nRandom := 4
+	nRandom := 10
 	if thorough {
 		nRandom = 40
 	}
-	names := []string{"foo", "foo1", "foo2", "fo", "ab", "abc", "a", "pkg", "pkg_x"}
+	names := []string{"foo", "foo1", "foo2", "fo", "ab", "abc", "a", "pkg", "pkg_x", "foo-x", "foo.d", "a+"}
 	for i := 0; i < nRandom; i++ {
 		n := 1 + rng.Intn(4)
 		var files []string
@@ -213,7 +220,12 @@ func runC17(r *rep.Report, thorough bool) error {
 		for _, f := range lay.Files {
 			abs := filepath.Join(root, f)
 			os.MkdirAll(filepath.Dir(abs), 0o755)
-			pkgName := "p" + strings.ReplaceAll(strings.ReplaceAll(filepath.Base(filepath.Dir(abs)), "_", ""), "-", "")
+			pkgName := "p" + strings.Map(func(r rune) rune {
+				if r >= 'a' && r <= 'z' || r >= 'A' && r <= 'Z' || r >= '0' && r <= '9' {
+					return r
+				}
+				return -1
+			}, filepath.Base(filepath.Dir(abs)))
 			body := fmt.Sprintf("package %s\n\ntype T%s struct{ A int }\n", pkgName, strings.TrimSuffix(filepath.Base(f), ".go"))
 			switch {
 			case lay.Err == "missing" && strings.HasSuffix(f, "nope.go"):
